@@ -239,7 +239,16 @@ def api_undo_after_retry(vals=None, out=None):
     return bad, {"script": "ZoomIn, MoveNext, MoveNext, MoveLastLocation on x(it)y(it)z in Enhanced mode", "positions": ids, "results": res[2:]}
 
 
+def kernel(run, crate_name):
+    """-> (crate, {harness: lemma}) ; shared with C09 (the navigation position is always an id of the expression)."""
+    return _build(run, crate_name, only_kernel=True)
+
+
 def build(run):
+    return _build(run, "c11nav")
+
+
+def _build(run, crate_name, only_kernel=False):
     run.outside += ["that the rule-computed NavNode is an id of the expression (navigate.yaml evaluated by the XPath interpreter)",
                     "navigation modes and auto-zoom (rule data)", "undo semantics beyond stack balance"]
     nav = slicer.Source.get("src/navigate.rs")
@@ -275,7 +284,7 @@ def build(run):
         .replace("POP_STACK_FN", pop_stack.text).replace("PUSH_BLOCK", push_block.text).replace("SET_MARKER_BLOCK", marker_block.text) \
         .replace("MOVE_LAST_BLOCK", move_last.text)
     body = body.replace("#[derive(Debug, Clone)]\npub struct NavigationState", "#[derive(Clone)]\npub struct NavigationState")
-    crate = kani_run.Crate("c11nav", body)
+    crate = kani_run.Crate(crate_name, body)
     run.bound("K-C11-a", "pre-state: stacks of length 0..2 (equal lengths: the representation invariant asserted by pop()), ids from {a, b, ILLEGAL}, one arbitrary place marker and where_am_i; "
               "commands from {MoveNext, ZoomIn, MoveLastLocation, ReadNext, DescribeCurrent, WhereAmI, SetPlacemarker0..9}; rule results arbitrary; each statement group is checked as one inductive step (push/set-marker statements; pop_stack with count <= 2 = LOOP_LIMIT-1; MoveLastLocation pop)")
     run.assume("Instant::now stubbed (zeroed Instant); str::starts_with(&str) stubbed by a byte loop; context_get_variable replaced by a shim returning arbitrary rule results",
@@ -301,6 +310,8 @@ def build(run):
         dict(id="K-C11-a.set_placemarker_index", harness="set_placemarker_stores_at_its_index", covers=["marker 9 reachable"], role=lambda v, o: "any",
              claim="SetPlacemarkerN writes exactly place_markers[N]; N < 10"),
     ]
+    if only_kernel:
+        return crate, {l["harness"]: l for l in lem}
     if run.tier == "quick":   # the two slowest inductive steps (250-400 s each) run in the thorough tier only
         lem = [l for l in lem if l["harness"] not in ("one_rule_application_keeps_invariants", "set_placemarker_stores_at_its_index")]
     run.kani(crate, lem, timeout=600 if run.tier == "quick" else 1800)
